@@ -114,8 +114,9 @@ func runEcal(c *core.Ctx, stream string, idx int, s *script, noise, noiseSeed ui
 	erp := interpreter.NewECALRuntimeProvider("c02", nil, util.NewMemoryLogger(10))
 	defer func() { go erp.Cron.Stop() }()
 	// worker count of the interpreter's processor is fixed by the provider
+	lastView := ""
 	detail := func() map[string]interface{} {
-		return map[string]interface{}{"source": src, "trace_tail": traceTail(tr, 40)}
+		return map[string]interface{}{"source": src, "trace_tail": traceTail(tr, 40), "view": lastView}
 	}
 	ast, err := parser.ParseWithRuntime("c02", src, erp)
 	if err == nil {
@@ -147,9 +148,11 @@ func runEcal(c *core.Ctx, stream string, idx int, s *script, noise, noiseSeed ui
 		default:
 		}
 		if i > 5 {
-			if st, _ := sched.PoolStuck(tr, pool); st {
+			if st, view := sched.PoolStuck(tr, pool); st {
 				gs := sched.GoStates()[gid]
-				if gs == "semacquire" || gs == "sync.WaitGroup.Wait" {
+				lastView = fmt.Sprintf("live=%v last=%v pushed=%d signalled=%d tracelen=%d wc=%d evalstate=%s", view.LiveWorkers, view.LastPoint, view.Pushed, view.Signalled, view.TraceLen, pool.WorkerCount(), gs)
+				if (gs == "semacquire" || gs == "sync.WaitGroup.Wait") && view.Pushed > 0 &&
+					sched.GoStackHas(gid, "sync.(*WaitGroup).Wait", "AddEventAndWait") {
 					select {
 					case er = <-done:
 						finished = true
